@@ -429,6 +429,11 @@ def g_ts_cfg(rng, start, only_past=False):
                     continue
             b = a + _dt.timedelta(seconds=rng.choice([45, 900, 3600, 30000, 100000, 200000,
                                                       86400, 172800]))
+        r = rng.random()
+        if r < 0.06:
+            a, b = b, a     # stop before start: date-time ranges never wrap, never active
+        elif r < 0.1:
+            b = a           # empty range
         ranges.append([[a.year, a.month, a.day, a.hour, a.minute, a.second, a.microsecond],
                        [b.year, b.month, b.day, b.hour, b.minute, b.second, b.microsecond]])
     return {'span': ranges}
@@ -501,6 +506,15 @@ def random_case(rng, quick):
             blk = blocks[i]
             fstart = start if blk['utc'] else start + LOCAL
             new = g_td_cfg(rng, fstart) if blk['kind'] == 'td' else g_ts_cfg(rng, fstart)
+            if blk['kind'] != 'td' and blk['cfg'].get('span') and rng.random() < 0.4:
+                # the same span(s) moved by whole days: new endpoints at the very times of day
+                # of the old ones, some of which lie in the past
+                shift = _dt.timedelta(days=rng.choice([1, 1, 2, -1]))
+
+                def moved(p):
+                    d = _dt.datetime(*p) + shift
+                    return [d.year, d.month, d.day, d.hour, d.minute, d.second, d.microsecond]
+                new = {'span': [[moved(a), moved(b)] for a, b in blk['cfg']['span']]}
             aimed = False
             t = rng.uniform(1.0, days * DAY * 0.8)
             if rng.random() < 0.6:
@@ -525,7 +539,7 @@ def random_case(rng, quick):
             ops.append([t, 'jump', rng.choice([30.0, 100.0, 600.0, 1800.0, 3600.0])])
         else:
             ops.append([rng.uniform(5.0, days * DAY * 0.6), 'jump', -rng.choice([30.0, 600.0, 3600.0])])
-    if rng.random() < 0.12 and not any(o[1] == 'jump' for o in ops):
+    if rng.random() < 0.3:
         # a forward jump sized so that the scheduler's next wake-up (where it notices the jump
         # and resets itself) lands some microseconds before a boundary of one of its blocks
         t0 = to_wall(start)
@@ -543,6 +557,7 @@ def random_case(rng, quick):
             if cands:
                 bnd = rng.choice(cands)
                 delta = rng.choice([10, 20, 30, 40, 60, 100, 200, 500]) * 1e-6
+                ops = [o for o in ops if o[1] != 'jump']    # one jump per case: this one
                 ops.append([tj, 'jump', (bnd - w_old) + 1e-3 - delta])
                 case['lat'] = 0.0
                 case['aim'] = 'reset'
@@ -590,7 +605,7 @@ def random_case(rng, quick):
 def gen(ctx):
     quick = ctx.tier == 'quick'
     rng = ctx.rng('gen')
-    n = 250 if quick else 20000
+    n = 400 if quick else 20000
     for _ in range(n):
         yield random_case(rng, quick)
 
